@@ -69,7 +69,21 @@ def extract_tables(prog):
                 pieces.append(_piece_of(prog, mod, name, p, None, p.lineno))
             entry[key.split("_")[0]] = pieces
         ex = _kw(v, "exponential_term", 2)
-        entry["exponential"] = [float(x) for x in prog.try_fold(ex, mod)] if ex is not None and prog.try_fold(ex, mod) is not None else None
+        exv = prog.try_fold(ex, mod) if ex is not None else None
+        if exv is None and isinstance(ex, ast.Call) and isinstance(ex.func, ast.Name):
+            # a named record of the three constants:  ExponentialTerm(a_0=.., a_1=.., a_2=..)  declared with namedtuple
+            decl = mod.assigns.get(ex.func.id)
+            if isinstance(decl, ast.Call) and (call_name(decl) or "").split(".")[-1] == "namedtuple" and len(decl.args) >= 2:
+                names = prog.try_fold(decl.args[1], mod)
+                if isinstance(names, str):
+                    names = names.replace(",", " ").split()
+                if isinstance(names, (list, tuple)):
+                    vals = {}
+                    for nm, a in list(zip(names, ex.args)) + [(k.arg, k.value) for k in ex.keywords if k.arg]:
+                        vals[nm] = prog.try_fold(a, mod)
+                    if all(nm in vals and vals[nm] is not None for nm in names):
+                        exv = [vals[nm] for nm in names]
+        entry["exponential"] = [float(x) for x in exv] if exv is not None else None
         out[letter] = entry
     return out
 
@@ -175,6 +189,24 @@ def tb2(ctx, R):
                     if a == bv and it[0] in ("tuple", "list"):
                         expanded = list(it[1])
                 args += [show(x) for x in expanded]
+    if len(set(args)) < 2:
+        # verified inside a helper object's constructor: what the two constructions in Thermocouple.__init__ hand to it
+        from .sem import call_chains, subst as _subst_
+        args2 = []
+        for f in region(ctx, ti, depth=3):
+            if f is ti:
+                continue
+            sy_ = Sym(prog, f, f.cls, inline=False)
+            for c in walk_body(f.node):
+                if isinstance(c, ast.Call) and call_name(c) == "_verify_contiguous" and c.args:
+                    for c2 in [x for x in walk_body(ti.node) if isinstance(x, ast.Call) and isinstance(x.func, (ast.Name, ast.Attribute))
+                               and prog.resolve_class(ti.module, x.func) is f.cls and f.name == "__init__"]:
+                        st_ = Sym(prog, ti, ti.cls, inline=False)
+                        e_, _g_ = st_.env_at(c2)
+                        env, _g = sy_.env_at(c, bound={p_: st_.expr(a_, e_) for p_, a_ in zip(f.params[1:], c2.args)})
+                        args2.append(show(sy_.expr(c.args[0], env)))
+        if len(set(args2)) >= 2:
+            args = args2
     args = sorted(args)
     R.check(len(args) >= 2 and len(set(args)) >= 2, "thermocouples.Thermocouple.__init__::verification", ti.where(), "both tables verified (%s)" % args,
             "contiguity is verified for %s only" % args)
@@ -186,28 +218,56 @@ def tb2(ctx, R):
             "polynomials are evaluated by `%s`: np.polyval expects the highest power first and would silently reverse the tables" % show(alpha(av)))
     pw_ = prog.func("thermocouples.Polynomial.within_range")
     pv = Sym(prog, pw_, pw_.cls).function_value()
-    for q, attr in (("thermocouples.Thermocouple.celsius_to_mv", "_forward_polynomials"), ("thermocouples.Thermocouple.mv_to_celsius", "_inverse_polynomials")):
+    tinit = prog.func("thermocouples.Thermocouple.__init__")
+
+    def field_origin(F):
+        """the parameter of Thermocouple.__init__ a field path is filled from: self.f = param, or self.f = Helper(param) with the
+        helper storing it as .g  (for the path self.f.g)"""
+        from .sem import instance_attrs
+        from .region import ctor_fields
+        tc = tinit.cls
+        if F[0] == "self":
+            for fn, n in instance_attrs(prog, tc).get(F[1], []):
+                if isinstance(n, ast.Assign) and isinstance(n.value, ast.Name) and n.value.id in tinit.params:
+                    return n.value.id
+        if F[0] == "attr" and F[1][0] == "self":
+            for fn, n in instance_attrs(prog, tc).get(F[1][1], []):
+                if isinstance(n, ast.Assign) and isinstance(n.value, ast.Call) and isinstance(n.value.func, (ast.Name, ast.Attribute)):
+                    k = prog.resolve_class(fn.module, n.value.func)
+                    for pos, (fld, pn) in (ctor_fields(k) if k is not None else {}).items():
+                        if fld == F[2] and pos < len(n.value.args) and isinstance(n.value.args[pos], ast.Name):
+                            return n.value.args[pos].id
+        return None
+    is_field = lambda t: isinstance(t, tuple) and ((len(t) == 2 and t[0] == "self") or (len(t) == 3 and t[0] == "attr" and is_field(t[1])))
+    main_fields = {}
+    for q, want_param in (("thermocouples.Thermocouple.celsius_to_mv", tinit.params[1]), ("thermocouples.Thermocouple.mv_to_celsius", tinit.params[2])):
         f = prog.func(q)
         x = ("param", f.params[1])
         paths = Sym(prog, f, f.cls, inline=True).function_paths()
         # do not inline Polynomial methods: they are called on the pieces (bound variables)
         for guards, val, _e in paths:
             pws = collect(val, lambda n: isinstance(n, tuple) and n and n[0] == "call" and n[1] == "numpy.piecewise") if val else []
-            main = [n for n in pws if contains(n, lambda y: y == ("self", attr))]
+            # the table the conditions are drawn from: a field (possibly of a helper object) filled from the expected constructor parameter
+            cand = [(n, n[2][1][3]) for n in pws if len(n[2]) >= 3 and n[2][1][0] == "comp" and is_field(n[2][1][3])]
+            main = [n for n, F in cand if field_origin(F) == want_param]
+            attr = show(cand[0][1]) if cand else want_param
+            if main:
+                attr_t = [F for n, F in cand if n is main[0]][0]
+                main_fields[q] = attr_t
             key = "%s::piecewise%s" % (q, "" if not guards else " [%s]" % show(alpha(guards[0]))[:40])
             if len(main) != 1:
-                R.violation(key, f.where(), "the conversion is not one np.piecewise over self.%s (found %d)" % (attr, len(main)))
+                R.violation(key, f.where(), "the conversion is not one np.piecewise over the table given as `%s` (found %d)" % (want_param, len(main)))
                 continue
             m = main[0]
             a = m[2]
             conds, funcs = (a[1], a[2]) if len(a) >= 3 else (None, None)
-            ok_c = conds is not None and conds[0] == "comp" and conds[3] == ("self", attr) and not conds[4] and \
+            ok_c = conds is not None and conds[0] == "comp" and conds[3] == attr_t and not conds[4] and \
                 conds[1] == ("method", "within_range", conds[2], (x,), ())
             ok_f = funcs is not None and funcs[0] == "list" and len(funcs[1]) == 2 and funcs[1][0][0] == "splice" and funcs[1][1] == ("ext", "numpy.nan") and \
-                funcs[1][0][1][0] == "comp" and funcs[1][0][1][3] == ("self", attr) and not funcs[1][0][1][4] and \
+                funcs[1][0][1][0] == "comp" and funcs[1][0][1][3] == attr_t and not funcs[1][0][1][4] and \
                 funcs[1][0][1][1] == ("attr", funcs[1][0][1][2], "apply")
             R.check(a[0] == x and ok_c and ok_f, key, f.where(), "np.piecewise(x, [p.within_range(x) for p in pieces], [p.apply for p in pieces] + [nan])",
-                    "conditions and functions handed to np.piecewise are not built from self.%s in the same order with exactly one NaN default: %s" % (attr, show(alpha(m))[:200]))
+                    "conditions and functions handed to np.piecewise are not built from %s in the same order with exactly one NaN default: %s" % (attr, show(alpha(m))[:200]))
             # nothing else produces NaN / masks the result
             nans = collect(val, lambda n: n == ("ext", "numpy.nan") or (isinstance(n, tuple) and n and n[0] == "const" and isinstance(n[1], float) and n[1] != n[1]))
             masks = collect(val, lambda n: isinstance(n, tuple) and n and n[0] == "call" and n[1] in ("numpy.where", "numpy.clip", "numpy.full_like", "numpy.ma.masked_outside"))
@@ -227,7 +287,8 @@ def tb2(ctx, R):
     ok = False
     got = None
     if sel is not None and sel[1] is not None:
-        pws = collect(sel[1], lambda n: isinstance(n, tuple) and n and n[0] == "call" and n[1] == "numpy.piecewise" and not contains(n, lambda y: y == ("self", "_forward_polynomials")))
+        fwd_field = main_fields.get("thermocouples.Thermocouple.celsius_to_mv", ("self", "_forward_polynomials"))
+        pws = collect(sel[1], lambda n: isinstance(n, tuple) and n and n[0] == "call" and n[1] == "numpy.piecewise" and not contains(n, lambda y: y == fwd_field))
         if len(pws) == 1 and sel[1][0] == "binop" and sel[1][1] == "+":
             a = pws[0][2]
             got = pws[0]
@@ -369,9 +430,18 @@ def tb4(ctx, R):
     R.check(len(set(got.values())) == len(got) == 8, "thermocouple type codes::eight distinct targets", where, "8 codes, 8 tables",
             "type code map has %d entries with %d distinct targets" % (len(got), len(set(got.values()))))
     fp = prog.func("scaling.ThermocoupleScaling.from_properties")
-    t = unparse(fp.node)
-    R.check("Thermocouple_Type" in t and "Scaling_Direction" in t and "10072" in t, "scaling.ThermocoupleScaling.from_properties", fp.where(),
-            "type (default J) and direction are read from the scale's properties", "type/direction properties are not read as before")
+    defaults = {}
+    for c in walk_body(fp.node):
+        if isinstance(c, ast.Call) and isinstance(c.func, ast.Attribute) and c.func.attr == "get" and len(c.args) == 2:
+            for nm in ("Thermocouple_Type", "Scaling_Direction"):
+                if nm in unparse(c.args[0]):
+                    defaults[nm] = prog.try_fold(c.args[1], fp.module, default="?")
+    key = "scaling.ThermocoupleScaling.from_properties"
+    if set(defaults) != {"Thermocouple_Type", "Scaling_Direction"}:
+        R.undecided(key, fp.where(), "how the type and direction properties are read (properties.get(name, default)) was not recognised")
+    else:
+        R.check(defaults["Thermocouple_Type"] == 10072, key, fp.where(), "type (default J = 10072) and direction are read from the scale's properties",
+                "the default thermocouple type is %r, not 10072 (type J)" % (defaults["Thermocouple_Type"],))
 
 
 def _factor_to(node, target_pred):
